@@ -15,6 +15,11 @@ WRITTEN in param/parameterized.py:
     `_async_ref(pname, new_awaitable, ref)` for each, WITHOUT going through `_update_ref`: the new
     task passes the still-current check (same `ref`), finds the older task registered, cancels it
     and registers itself; the older task's `finally` must leave that registration alone;
+  * **the same function object assigned again** (`again p`): Python's still-current check is object
+    identity, so every task ever scheduled for that function passes it again;
+  * **`obj.param.trigger`** — of a third parameter whose watcher assigns a plain value to a linked
+    parameter (`trigC`), and of a linked parameter itself (`trigP`: `trigger` re-assigns the current
+    value, which `__set__` treats like any plain value);
   * **rejected results** — an awaitable may complete with a value the parameter's `_validate`
     rejects (`Env.rej`): `self_.update` raises inside the task, nothing is stored, no event is sent,
     the `_syncing` scope is left through its `finally`, `_async_ref`'s `finally` removes the
@@ -42,6 +47,9 @@ abbrev Hook := Option (Nat × Nat × Int)
 structure Env where
   hook : Hook
   rej : Int → Bool
+  /-- `(b, w)`: a watcher on a third, ordinary parameter `c` assigns the plain value `w` to `b`; it
+      runs when the driver calls `obj.param.trigger('c')` -/
+  thook : Option (Nat × Int) := none
 
 /-- src: `Parameter.__set__` with a plain value: `_validate(val)` comes before the store and before
 the deferred unlink, so a rejected value changes nothing (`none`); otherwise store, unlink, then the
@@ -172,8 +180,11 @@ structure StH where
   order : List Nat
   /-- references (named by the id of their first task) whose function depends on the source -/
   deps : List Nat
-  /-- tasks created by `_sync_refs`, with the reference they were scheduled for -/
+  /-- tasks created by `_sync_refs` or by re-assigning the same function object, with the reference
+      they were scheduled for -/
   refOf : List (Nat × Nat)
+  /-- per parameter, the function object last assigned to it (named by the id of its first task) -/
+  fn : List (Nat × Nat) := []
 
 def StH.rf (sh : StH) (t : Nat) : Nat :=
   match sh.refOf.find? (fun e => e.1 = t) with
@@ -188,6 +199,9 @@ inductive EventH
   | tick
   | complete (t k : Nat) (v : Int)
   | bump                                         -- `src.x = <new value>`
+  | again (p : Nat)                              -- `obj.p = <the SAME function object as last time>`
+  | trigC                                        -- `obj.param.trigger('c')`: runs the watcher of `Env.thook`
+  | trigP (p : Nat)                              -- `obj.param.trigger(p)` on a (possibly linked) parameter
   deriving Repr, DecidableEq
 
 /-- `async_executor(partial(_async_ref, pname, new_awaitable, ref))` from `_sync_refs` -/
@@ -219,16 +233,41 @@ def applyEventH (c : Cfg) (e : Env) (sh : StH) : EventH → StH
     { core := assignAsync c sh.core p k,
       order := if keys.contains p then keys else keys ++ [p],
       deps := if dep then sh.deps ++ [t] else sh.deps,
-      refOf := sh.refOf }
+      refOf := sh.refOf,
+      fn := (p, t) :: sh.fn.filter (fun e => e.1 ≠ p) }
+  -- the reference is the same OBJECT as before: `_update_ref` installs it again, a new task is
+  -- scheduled for it — and tasks scheduled for it earlier pass `refs.get(pname) is not ref` again
+  | .again p =>
+    match sh.fn.find? (fun e => e.1 = p) with
+    | none => sh
+    | some (_, r) =>
+      match sh.core.tasks r with
+      | none => sh
+      | some xr =>
+        let s := sh.core
+        let t := s.nTasks
+        let keys := sh.keys
+        let s1 := if c.startCheck then spawn (updateRef s p r) p xr.kind else updateRef (spawn s p xr.kind) p r
+        { sh with core := { s1 with last := upd s1.last p (.task r) },
+                  order := if keys.contains p then keys else keys ++ [p],
+                  refOf := sh.refOf ++ [(t, r)] }
   | .tick => { sh with core := drainH c e sh.rf (tickFuel sh.core) sh.core }
   | .complete t k v => { sh with core := complete sh.core (t, k) v }
   | .bump => bumpH sh
+  -- src: `Parameters.trigger`: `_TRIGGER = True; self_.update({name: current value})`.  `__set__` does not
+  -- look at `_TRIGGER`: a plain assignment made by a watcher that `trigger` runs is a plain assignment,
+  | .trigC =>
+    match e.thook with
+    | some (b, w) => { sh with core := assignPlainH e sh.core b w }
+    | none => sh
+  -- and triggering a linked parameter re-assigns its current value — a plain value: the link is dropped
+  | .trigP p => { sh with core := assignPlainH e sh.core p (sh.core.vals p) }
 
-def StH.init (v0 : Int) : StH := { core := St.init v0, order := [], deps := [], refOf := [] }
+def StH.init (v0 : Int) : StH := { core := St.init v0, order := [], deps := [], refOf := [], fn := [] }
 
 def runH (c : Cfg) (e : Env) (evs : List EventH) : StH := evs.foldl (applyEventH c e) (StH.init 0)
 
 /-- no hook, nothing rejected: the fragment the theorems are about -/
-def Env.plain : Env := { hook := none, rej := fun _ => false }
+def Env.plain : Env := { hook := none, rej := fun _ => false, thook := none }
 
 end ParamVerif.Async
